@@ -63,6 +63,16 @@ MANIFEST = dict(
         "with container, proxy and expression operands on shapes just below, at, just above and far from every blocking "
         "constant of kernels/default and kernels/cblas that the expression layer reaches (gemm MR=4 NR=6 MC=128 KC=512 "
         "NC=1020, BLAS fallback tile 512, fold_rows 16, transposing assign 8/16, trmv/trmm 128) and 0/1-sized; "
+        "family R: for EVERY translated rule of the rewrite table (86 of 86; list taken from the translator) at least one "
+        "statement that makes exactly this specialisation fire (decided by the class-level interpreter checks/c01cls.py) with "
+        "NON-symmetric arguments - all operand extents distinct, row window != column window and a second window of equal "
+        "extents but different starts, start offsets > 0, folded scalar factors -2 / -3 / -3/2 on both sides, division as "
+        "binary functor, distinct operands on both sides of binary nodes, both repeater orientations and concat directions, "
+        "prod(v,M) beside prod(M,v), functor compositions whose order and members are observable (elem_inv(sqr x), "
+        "sqr(-2 abs x), abs(min(as_rows A))), assigned with = += -= and their noalias forms and every third one also reduced with sum() - so that an argument mix-up inside any single rule has a concrete failing "
+        "input on every run (per-rule counts and the list of never-fired rules are in the evidence; the thorough tier adds "
+        "a second set with windows from the seed); if the Lean side does not build the same programs are run against the "
+        "harness oracle alone, and a broken rule lemma is resolved by a failing input whose statement fires that rule; "
         "(b) generated programs of typed statements (all assignment forms, explicit aliasing incl. two proxies of one "
         "variable, proxies up to nesting depth 5 as targets and operands - sub-range of a row of the transpose of a sub-matrix, "
         "sub-range of a sub-range of a row of rows of a transpose, sub-range of the diagonal of a sub-matrix of a transpose, "
@@ -81,6 +91,9 @@ MANIFEST = dict(
        "every run) and 17 of the 86 sound rules are not part of the generated executable optimiser (their lemmas are proved, the "
        "optimiser skips them); max/min of an EMPTY operand returns numeric_limits lowest()/max() and is outside the denotation; "
        "mixed value types are tied on exactly representable data only (int division and float rounding are not modelled); "
+       "the per-rule witnesses of family R are fixed programs (one or two argument sets per rule, more in the thorough tier), "
+       "the rule range(diagonal_matrix) is exercised on diagonal windows only (its REMORA_RANGE_CHECK precondition); "
+       "whether a statement makes a rule fire is decided by the class-level interpreter of the parsed table, not by the C++ compiler; "
        "shapes beyond the listed boundary values are sampled, not exhausted; the "
        "assignment theorems are about the element loop on an abstract lawful memory, the hand-written model is tied by "
        "the correspondence, the rule table by translation.",
@@ -375,14 +388,27 @@ def run(ctx):
     if not ctx.quick:
         ctx.leanchecker(mods)
     drv = ctx.driver("drv_c01")
+    if os.environ.get("C01_NO_DRIVER"):       # development aid: behave as if the model driver did not build
+        ctx.broken("build", "drv_c01", "C01_NO_DRIVER set")
+        drv = None
     if not drv:
-        return
+        # the Lean side does not build: the generated C++ programs are still compiled and run against the
+        # naive-loop oracle of the harness alone, so that a concrete failing input is still searched for
+        ctx.log("model driver unavailable: running the programs against the harness oracle alone")
+    try:
+        run_programs(ctx, drv)
+    finally:
+        link_broken_rule_lemmas(ctx)
+
+
+def run_programs(ctx, drv):
     ncases, nstmts, maxdepth, per_tu = (30, 8, 3, 24) if ctx.quick else (100, 10, 4, 30)
     if os.environ.get("C01_ONLY_CORPUS"):      # development aid: corpus cases only
         ncases = 0
     calc = load_calc()
     # ---- 0. the blocked kernels called directly against the kernel models (constants from the translator)
-    c01kern.run(ctx, drv)
+    if drv:
+        c01kern.run(ctx, drv)
     # ---- 1. corpus first: its own small program
     dense_c, sparse_c = corpus_program(ctx, calc)
     sparse_ok = True
@@ -392,6 +418,9 @@ def run(ctx):
         for cname, flags in CONFIGS:
             exe = compile_program(ctx, f"c01-corpus-{cname}", tus, flags)
             if not exe or isinstance(exe, list):
+                continue
+            if not drv:
+                core.oracle_only(ctx, f"K-C01-corpus[{cname}]", cases_d, [exe], classify, max_report=12)
                 continue
             if nd:
                 core.correspond(ctx, f"K-C01-corpus[{cname}]", cases_d[:nd], [exe], [drv], classify, max_report=12, keep_prefix=100000)
@@ -417,6 +446,76 @@ def run(ctx):
     # ---- 3. generated program
     program = gen_program(ctx, calc, ncases, nstmts, maxdepth, sparse_ok)
     run_program(ctx, "gen", program, per_tu, drv, shared=False)
+
+
+def rule_report(ctx, infos):
+    """per rule of the table: number of statements of the directed program (after dropping what the compiler
+    rejected) that are a witness for it / that make it fire at all (class-level interpreter checks/c01cls.py)"""
+    try:
+        tab = json.load(open(os.path.join(GEN_DIR, "rules.json")))
+    except OSError:
+        return
+    names = [r["name"] for r in tab["rules"] if r["status"] == "translated"]
+    wit, fired = {}, {}
+    for inf in infos:
+        if inf.get("family") != "rule":
+            continue
+        if inf.get("witness"):
+            wit[inf["witness"]] = wit.get(inf["witness"], 0) + 1
+        for r in inf.get("rules", []):
+            fired[r] = fired.get(r, 0) + 1
+    ctx.cov["rewrite_rule_witness_statements"] = {n: wit.get(n, 0) for n in names}
+    ctx.cov["rewrite_rules_fired_in_directed_program"] = {n: fired.get(n, 0) for n in names}
+    never = [n for n in names if not fired.get(n)]
+    ctx.cov["rewrite_rules_never_fired_in_directed_program"] = never
+    ctx.cov["rewrite_rules_with_directed_witness"] = sum(1 for n in names if wit.get(n))
+    ctx.log(f"directed program: {len(names) - len(never)} of {len(names)} rewrite rules fire in a dedicated statement"
+            + (f"; NEVER fired: {never}" if never else ""))
+
+
+def rules_of_statement(calc_table, ops):
+    """names of the rewrite rules the LAST statement / reduction of the recorded op lines makes fire"""
+    from checks import c01cls
+    calc = c01cls.ClassCalc(calc_table)
+    decl = [o for o in ops if o.strip() and not o.startswith(("stmt", "red"))]
+    stm = [o for o in ops if o.startswith(("stmt", "red"))]
+    if not stm:
+        return set()
+    try:
+        c01gen.CorpusGen(calc).load(decl + [stm[-1]], 0)
+    except Exception:
+        pass
+    return set(calc.fired)
+
+
+def link_broken_rule_lemmas(ctx):
+    """a regenerated rule lemma that no longer proves is RESOLVED by a concrete failing input whose statement makes
+    that very rule fire: the input is the witness of the unsound rule (the break is then not reported a second time
+    as `no-failing-input-found`)"""
+    pending = [b for b in ctx.breaks if not b["resolved"] and b["kind"] == "theorem" and ":rule_" in b["name"]]
+    if not pending:
+        return
+    try:
+        tab = json.load(open(os.path.join(GEN_DIR, "rules.json")))
+    except OSError:
+        return
+    fired_by_violation = []
+    for path, found in ctx.violations:
+        if not found:
+            continue
+        try:
+            rep = json.load(open(path))
+        except (OSError, ValueError):
+            continue
+        fired_by_violation.append((path, rules_of_statement(tab, rep.get("ops", []))))
+    for b in pending:
+        rule = b["name"].split(":", 1)[1]
+        rule = rule[:-3] if rule.endswith("_wf") else rule
+        hits = [p for p, fr in fired_by_violation if rule in fr]
+        if hits:
+            b["resolved"] = True
+            ctx.cov.setdefault("broken_rule_lemmas_with_concrete_witness", {})[rule] = hits[:3]
+            ctx.log(f"broken lemma {b['name']}: concrete failing input in {hits[0]}")
 
 
 def run_program(ctx, tag, program, per_tu, drv, shared):
@@ -449,9 +548,13 @@ def run_program(ctx, tag, program, per_tu, drv, shared):
             ctx.hist("directed_form", inf["form"])
         ctx.cov["directed_evaluations"] = len(infos)
         ctx.cov["directed_cases"] = len(cases)
+        rule_report(ctx, infos)
     for cname, flags in CONFIGS:
         exe = compile_program(ctx, f"{base}-{cname}", tus, flags)
         if not exe or isinstance(exe, list):
+            continue
+        if not drv:
+            core.oracle_only(ctx, f"{name}[{cname}]", cases, [exe], classify, max_report=12)
             continue
         if shared:
             # every case declares its own variables: keep its whole declaration prefix when shrinking
